@@ -616,7 +616,7 @@ pub fn run(tier: Tier, seed: u64, replay: Option<String>) -> i32 {
         ctx.sample(json!(case_text(0, c)));
     }
     run_cases(&mut ctx, cases);
-    let n = tier.pick(4000, 60000);
+    let n = tier.pick(20000, 200000);
     let mut drv = Driver::new(seed, 15, 60);
     let rnd: Vec<Case> = drv
         .draw(n)
